@@ -331,6 +331,59 @@ int main(int argc, char** argv) {
       string lg = HLOG();
       out = op + " " + out + "|" + lg;
       for (auto& sp : HSPY) if (sp.bad) out += " ALLOCATOR-MISUSE";
+    } else if (op == "jsonre" || op == "mpre") {
+      // C03: the same document object is filled, traversed, serialized, (implicitly) cleared and reused
+      int cfg = cfgBits(), lim; string ha, hb; if (op == "jsonre") is >> cfg; is >> lim >> ha >> hb;
+      if (cfg != cfgBits()) { std::cout << "cfg-mismatch\n"; continue; }
+      string a = unhex(ha), b = unhex(hb);
+      JsonDocument d(&SPY0);
+      auto once = [&](const string& in) {
+        DeserializationError e = op == "jsonre" ? deserializeJson(d, in.data(), in.size(), DeserializationOption::NestingLimit((uint8_t)lim))
+                                                : deserializeMsgPack(d, in.data(), in.size(), DeserializationOption::NestingLimit((uint8_t)lim));
+        string j; serializeJson(d, j); string m; serializeMsgPack(d, m);
+        return string(e.c_str()) + " " + showS(d.as<JsonVariantConst>());
+      };
+      out = once(a) + " ; " + once(b);
+      d.clear(); out += " ; " + once(a);
+    } else if (op == "dfaultall") {
+      // C05 for deserialization: every single-failure position k in 1..N and every fail-from-k schedule of one input
+      char fmt; string hex; is >> fmt >> hex; string in = unhex(hex);
+      auto deserOnce = [&](JsonDocument& d) { return fmt == 'j' ? deserializeJson(d, in.data(), in.size(), DeserializationOption::NestingLimit(20))
+                                                                : deserializeMsgPack(d, in.data(), in.size(), DeserializationOption::NestingLimit(20)); };
+      static Spy FS(7);
+      FS.resetCounters();
+      string ref; DeserializationError refErr;
+      { JsonDocument d(&FS); refErr = deserOnce(d); ref = showS(d.as<JsonVariantConst>()); }
+      long N = FS.calls; string bad; long runs = 0;
+      if (!FS.live.empty()) bad = "leak-in-reference-run";
+      for (int mode = 0; mode < 2 && bad.empty(); mode++)
+        for (long k = 1; k <= N && bad.empty(); k++) {
+          FS.resetCounters();
+          if (mode == 0) FS.failAt.insert(k); else FS.failFrom = k;
+          runs++;
+          {
+            JsonDocument d(&FS);
+            DeserializationError e = deserOnce(d);
+            bool failed = FS.nfailed > 0;
+            string tag = string(mode ? "from" : "single") + " k=" + std::to_string(k);
+            string t = showS(d.as<JsonVariantConst>());     // the partial document must be traversable
+            string j; serializeJson(d, j); string m; serializeMsgPack(d, m);
+            // a failed allocation must never end in Ok; NoMemory is expected unless the input is malformed anyway (then its own error may come first)
+            if (failed && (e == DeserializationError::Ok || (e != DeserializationError::NoMemory && refErr == DeserializationError::Ok)))
+              bad = tag + ": an allocation failed but the call returned " + e.c_str();
+            else if (failed && !d.overflowed()) bad = tag + ": an allocation failed but overflowed() is false";
+            else if (!failed && (e != refErr || t != ref)) bad = tag + ": no allocation failed but the result differs from the reference run";
+            d.clear();
+            if (bad.empty() && !FS.live.empty()) bad = tag + ": " + std::to_string(FS.live.size()) + " block(s) still allocated after clear()";
+            // after clear() the document works normally as soon as allocation succeeds again
+            FS.failAt.clear(); FS.failFrom = -1;
+            DeserializationError e2 = deserOnce(d);
+            if (bad.empty() && (e2 != refErr || showS(d.as<JsonVariantConst>()) != ref)) bad = tag + ": after clear() the document does not work normally (" + e2.c_str() + ")";
+          }
+          if (bad.empty() && !FS.live.empty()) bad = string(mode ? "from" : "single") + " k=" + std::to_string(k) + ": blocks left after destruction";
+          if (FS.bad) bad = "allocator misuse";
+        }
+      out = "N=" + std::to_string(N) + " runs=" + std::to_string(runs) + " ref=" + refErr.c_str() + (bad.empty() ? " all-ok" : " BAD " + bad);
     } else if (op == "stream" || op == "mpstream") {
       // successive calls on one reader until the input is exhausted or 40 calls were made
       int cfg = 0, lim, chunk; string hex;
